@@ -1,3 +1,450 @@
-//! Composite-program grammar P2 and its BFS (filled in below).
+//! Composite-program grammar P2: breadth-first exploration of the derivation graph whose nodes are
+//! rule files and whose edges are single grammar productions (append a conjunct, append an
+//! alternative, wrap the last item in a query block / when block, add a rule-level `when`, add a
+//! rule, add a named-rule reference). Every production grows the program by one unit, so BFS level k
+//! holds exactly the programs of size k and the first counterexample found is a smallest one.
+use crate::ast::*;
 use crate::evidence::Report;
-pub fn explore_c01(_rep: &mut Report, _thorough: bool) {}
+use crate::universe::*;
+use crate::val::*;
+use std::collections::HashSet;
+
+#[derive(Clone, Copy, PartialEq, Debug)]
+pub enum SiteKind {
+    RuleBody,   // leaves, blocks, when-blocks, named refs
+    RuleWhen,   // leaves, named refs
+    BlockBody,  // leaves, blocks, when-blocks
+    WhenCond,   // leaves (named refs allowed by grammar; kept to leaves)
+    RuleWhenBlockBody, // body of a when block directly in a rule: named refs allowed
+}
+
+pub struct Gen {
+    pub leaves: Vec<Clause>,
+    pub conds: Vec<Clause>,
+    pub block_queries: Vec<(bool, Query, bool)>, // (some, query, not_empty)
+    pub max_depth: usize,
+    pub max_rules: usize,
+    pub with_named: bool,
+}
+
+pub fn var_leaves() -> Vec<Clause> {
+    vec![
+        bin(vec![Part::Var("v".into())], BinOp::Eq, false, i(1)),
+        un(vec![Part::Var("e".into())], UnOp::Empty, true),
+        bin(vec![Part::Var("e".into()), key("a")], BinOp::Eq, false, i(1)),
+    ]
+}
+
+/// file-level lets that the var leaves refer to; added only when used
+pub fn std_lets() -> Vec<Let> {
+    vec![
+        Let { name: "v".into(), val: Arg::Q(false, vec![key("a")]) },
+        Let {
+            name: "e".into(),
+            val: Arg::Q(false, vec![key("a"), Part::Filter(vec![vec![bin(vec![key("b")], BinOp::Eq, false, i(1))]])]),
+        },
+    ]
+}
+
+impl Gen {
+    pub fn standard(full_pool: bool) -> Gen {
+        let mut leaves = leaf_pool();
+        if !full_pool {
+            // PASS/FAIL-capable, SKIP-capable, ERROR-capable, list-valued, negated
+            leaves = vec![leaves[0].clone(), leaves[1].clone(), leaves[5].clone(), leaves[6].clone(), leaves[7].clone(), leaves[11].clone()];
+        }
+        leaves.extend(var_leaves());
+        let fb = |c: Clause| Part::Filter(vec![vec![c]]);
+        Gen {
+            leaves,
+            conds: vec![
+                un(vec![key("a")], UnOp::Exists, false),
+                un(vec![key("a"), fb(bin(vec![key("b")], BinOp::Eq, false, i(1)))], UnOp::Exists, false),
+                bin(vec![key("b")], BinOp::Eq, false, i(1)),
+            ],
+            block_queries: vec![
+                (false, vec![key("a")], false),
+                (false, vec![key("a"), Part::All], false),
+                (true, vec![key("a"), Part::All], false),
+                (false, vec![key("a"), fb(bin(vec![key("b")], BinOp::Eq, false, i(1)))], false),
+                (false, vec![key("a"), fb(bin(vec![key("b")], BinOp::Eq, false, i(1)))], true),
+            ],
+            max_depth: 2,
+            max_rules: 3,
+            with_named: true,
+        }
+    }
+}
+
+/// visit every CNF site of the file in pre-order; `f` may replace the CNF at the target index
+fn rewrite_cnf_in_clause(c: &Clause, counter: &mut usize, target: usize, depth: usize, in_rule_top: bool, f: &dyn Fn(&Cnf, SiteKind, usize) -> Option<Cnf>) -> Option<Clause> {
+    match c {
+        Clause::Block { some, q, not_empty, lets, body } => {
+            let nb = rewrite_cnf(body, SiteKind::BlockBody, counter, target, depth + 1, f)?;
+            Some(Clause::Block { some: *some, q: q.clone(), not_empty: *not_empty, lets: lets.clone(), body: nb })
+        }
+        Clause::When { cond, lets, body } => {
+            // cond first, then body
+            let before = *counter;
+            if let Some(nc) = rewrite_cnf(cond, SiteKind::WhenCond, counter, target, depth + 1, f) {
+                return Some(Clause::When { cond: nc, lets: lets.clone(), body: body.clone() });
+            }
+            let _ = before;
+            let kind = if in_rule_top { SiteKind::RuleWhenBlockBody } else { SiteKind::BlockBody };
+            let nb = rewrite_cnf(body, kind, counter, target, depth + 1, f)?;
+            Some(Clause::When { cond: cond.clone(), lets: lets.clone(), body: nb })
+        }
+        _ => None,
+    }
+}
+
+fn rewrite_cnf(c: &Cnf, kind: SiteKind, counter: &mut usize, target: usize, depth: usize, f: &dyn Fn(&Cnf, SiteKind, usize) -> Option<Cnf>) -> Option<Cnf> {
+    let my = *counter;
+    *counter += 1;
+    if my == target {
+        return f(c, kind, depth);
+    }
+    for (li, line) in c.iter().enumerate() {
+        for (ai, alt) in line.iter().enumerate() {
+            if let Some(nc) = rewrite_cnf_in_clause(alt, counter, target, depth, kind == SiteKind::RuleBody, f) {
+                let mut out = c.clone();
+                out[li][ai] = nc;
+                return Some(out);
+            }
+            if *counter > target {
+                return None;
+            }
+        }
+    }
+    None
+}
+
+fn count_sites_clause(c: &Clause) -> usize {
+    match c {
+        Clause::Block { body, .. } => count_sites(body),
+        Clause::When { cond, body, .. } => count_sites(cond) + count_sites(body),
+        _ => 0,
+    }
+}
+fn count_sites(c: &Cnf) -> usize {
+    1 + c.iter().map(|l| l.iter().map(count_sites_clause).sum::<usize>()).sum::<usize>()
+}
+
+fn file_sites(f: &File) -> usize {
+    f.rules.iter().map(|r| r.when.as_ref().map_or(0, count_sites) + count_sites(&r.body)).sum()
+}
+
+fn rewrite_file(file: &File, target: usize, f: &dyn Fn(&Cnf, SiteKind, usize) -> Option<Cnf>) -> Option<File> {
+    let mut counter = 0;
+    for (ri, r) in file.rules.iter().enumerate() {
+        if let Some(w) = &r.when {
+            if let Some(nw) = rewrite_cnf(w, SiteKind::RuleWhen, &mut counter, target, 0, f) {
+                let mut out = file.clone();
+                out.rules[ri].when = Some(nw);
+                return Some(out);
+            }
+            if counter > target {
+                return None;
+            }
+        }
+        if let Some(nb) = rewrite_cnf(&r.body, SiteKind::RuleBody, &mut counter, target, 0, f) {
+            let mut out = file.clone();
+            out.rules[ri].body = nb;
+            return Some(out);
+        }
+        if counter > target {
+            return None;
+        }
+    }
+    None
+}
+
+fn uses_var(c: &Clause, name: &str) -> bool {
+    let qv = |q: &Query| matches!(q.first(), Some(Part::Var(n)) if n == name);
+    match c {
+        Clause::Unary { q, .. } => qv(q),
+        Clause::Binary { q, rhs, .. } => qv(q) || matches!(rhs, Arg::Q(_, rq) if qv(rq)),
+        Clause::Block { q, body, .. } => qv(q) || body.iter().any(|l| l.iter().any(|c| uses_var(c, name))),
+        Clause::When { cond, body, .. } => cond.iter().chain(body.iter()).any(|l| l.iter().any(|c| uses_var(c, name))),
+        Clause::TypeBlock { body, .. } => body.iter().any(|l| l.iter().any(|c| uses_var(c, name))),
+        _ => false,
+    }
+}
+
+/// add the standard file-level lets that the program refers to
+pub fn close_lets(mut f: File) -> File {
+    let mut lets = vec![];
+    for l in std_lets() {
+        let used = f.rules.iter().any(|r| {
+            r.when.iter().flatten().chain(r.body.iter()).any(|line| line.iter().any(|c| uses_var(c, &l.name)))
+        });
+        if used {
+            lets.push(l);
+        }
+    }
+    f.lets = lets;
+    f
+}
+
+impl Gen {
+    pub fn initial(&self) -> Vec<File> {
+        self.leaves.iter().map(|l| file1(rule("r0", vec![vec![l.clone()]]))).collect()
+    }
+
+    /// all single-production successors
+    pub fn successors(&self, file: &File) -> Vec<File> {
+        let mut out = vec![];
+        let nsites = file_sites(file);
+        let rule_names: Vec<String> = file.rules.iter().map(|r| r.name.clone()).collect();
+        for t in 0..nsites {
+            // which rule does site t belong to? (named refs must not point at the enclosing rule: cycles are C08's)
+            let mut owner = 0;
+            {
+                let mut acc = 0;
+                for (ri, r) in file.rules.iter().enumerate() {
+                    let n = r.when.as_ref().map_or(0, count_sites) + count_sites(&r.body);
+                    if t < acc + n {
+                        owner = ri;
+                        break;
+                    }
+                    acc += n;
+                }
+            }
+            // 1. append a line / an alternative
+            let mut items: Vec<Clause> = vec![];
+            items.extend(self.leaves.iter().cloned());
+            for it in &items {
+                for as_alt in [false, true] {
+                    let it2 = it.clone();
+                    if let Some(nf) = rewrite_file(file, t, &move |c, kind, _d| {
+                        if kind == SiteKind::WhenCond || kind == SiteKind::RuleWhen {
+                            return None; // conditions grow through `conds` below
+                        }
+                        let mut n = c.clone();
+                        if as_alt {
+                            n.last_mut().unwrap().push(it2.clone());
+                        } else {
+                            n.push(vec![it2.clone()]);
+                        }
+                        Some(n)
+                    }) {
+                        out.push(nf);
+                    }
+                }
+            }
+            // 1b. conditions grow by a condition leaf
+            for cnd in &self.conds {
+                for as_alt in [false, true] {
+                    let c2 = cnd.clone();
+                    if let Some(nf) = rewrite_file(file, t, &move |c, kind, _d| {
+                        if !(kind == SiteKind::WhenCond || kind == SiteKind::RuleWhen) {
+                            return None;
+                        }
+                        let mut n = c.clone();
+                        if as_alt {
+                            n.last_mut().unwrap().push(c2.clone());
+                        } else {
+                            n.push(vec![c2.clone()]);
+                        }
+                        Some(n)
+                    }) {
+                        out.push(nf);
+                    }
+                }
+            }
+            // 2. named references (rule bodies, rule-level when bodies and rule `when` conditions)
+            if self.with_named {
+                for (ri, rn) in rule_names.iter().enumerate() {
+                    if ri == owner {
+                        continue;
+                    }
+                    // no reference cycles: the target must not (transitively) refer back; keep it simple: only allow
+                    // references whose target has no named references itself
+                    if has_named(&file.rules[ri]) {
+                        continue;
+                    }
+                    for not in [false, true] {
+                        for as_alt in [false, true] {
+                            let item = named(rn).with_not(not);
+                            if let Some(nf) = rewrite_file(file, t, &move |c, kind, _d| {
+                                if !(kind == SiteKind::RuleBody || kind == SiteKind::RuleWhenBlockBody || kind == SiteKind::RuleWhen) {
+                                    return None;
+                                }
+                                let mut n = c.clone();
+                                if as_alt {
+                                    n.last_mut().unwrap().push(item.clone());
+                                } else {
+                                    n.push(vec![item.clone()]);
+                                }
+                                Some(n)
+                            }) {
+                                out.push(nf);
+                            }
+                        }
+                    }
+                }
+            }
+            // 3. wrap the last item of the site in a query block
+            let maxd = self.max_depth;
+            for (some, q, ne) in &self.block_queries {
+                let (some, q, ne) = (*some, q.clone(), *ne);
+                if let Some(nf) = rewrite_file(file, t, &move |c, kind, d| {
+                    if kind == SiteKind::WhenCond || kind == SiteKind::RuleWhen || d >= maxd {
+                        return None;
+                    }
+                    let mut n = c.clone();
+                    let last = n.last_mut().unwrap().pop().unwrap();
+                    if matches!(last, Clause::Named { .. }) {
+                        return None; // named references are not allowed inside query blocks
+                    }
+                    n.last_mut().unwrap().push(Clause::Block { some, q: q.clone(), not_empty: ne, lets: vec![], body: vec![vec![last]] });
+                    Some(n)
+                }) {
+                    out.push(nf);
+                }
+            }
+            // 4. wrap the last item in a when block
+            for cnd in &self.conds {
+                let cnd = cnd.clone();
+                if let Some(nf) = rewrite_file(file, t, &move |c, kind, d| {
+                    if kind == SiteKind::WhenCond || kind == SiteKind::RuleWhen || d >= maxd {
+                        return None;
+                    }
+                    let mut n = c.clone();
+                    let last = n.last_mut().unwrap().pop().unwrap();
+                    if matches!(last, Clause::Named { .. }) && kind != SiteKind::RuleBody {
+                        return None;
+                    }
+                    n.last_mut().unwrap().push(Clause::When { cond: vec![vec![cnd.clone()]], lets: vec![], body: vec![vec![last]] });
+                    Some(n)
+                }) {
+                    out.push(nf);
+                }
+            }
+        }
+        // 5. rule-level when on the last rule
+        if let Some(last) = file.rules.last() {
+            if last.when.is_none() {
+                for cnd in &self.conds {
+                    let mut nf = file.clone();
+                    nf.rules.last_mut().unwrap().when = Some(vec![vec![cnd.clone()]]);
+                    out.push(nf);
+                }
+            }
+        }
+        // 6. a new rule
+        if file.rules.len() < self.max_rules {
+            for l in &self.leaves {
+                let mut nf = file.clone();
+                let name = format!("r{}", file.rules.len());
+                nf.rules.push(rule(&name, vec![vec![l.clone()]]));
+                out.push(nf);
+            }
+        }
+        out
+    }
+}
+
+fn has_named(r: &Rule) -> bool {
+    fn c_has(c: &Clause) -> bool {
+        match c {
+            Clause::Named { .. } => true,
+            Clause::Block { body, .. } => body.iter().any(|l| l.iter().any(c_has)),
+            Clause::When { cond, body, .. } => cond.iter().chain(body.iter()).any(|l| l.iter().any(c_has)),
+            _ => false,
+        }
+    }
+    r.when.iter().flatten().chain(r.body.iter()).any(|l| l.iter().any(c_has))
+}
+
+pub struct Bfs {
+    pub levels: Vec<Vec<File>>,
+    pub transitions: u64,
+    pub capped: bool,
+}
+
+/// BFS to `max_size`; `cap` bounds the number of programs kept per level (reported when hit)
+pub fn bfs(g: &Gen, max_size: usize, cap: usize) -> Bfs {
+    let mut seen: HashSet<u64> = HashSet::new();
+    let mut levels: Vec<Vec<File>> = vec![];
+    let mut transitions = 0u64;
+    let mut capped = false;
+    let mut cur: Vec<File> = vec![];
+    for f in g.initial() {
+        let f = close_lets(f);
+        let h = crate::evidence::fnv(&print_file(&f));
+        transitions += 1;
+        if seen.insert(h) {
+            cur.push(f);
+        }
+    }
+    levels.push(cur.clone());
+    for _ in 1..max_size {
+        let mut next = vec![];
+        'outer: for f in &cur {
+            for s in g.successors(f) {
+                let s = close_lets(s);
+                transitions += 1;
+                let h = crate::evidence::fnv(&print_file(&s));
+                if seen.insert(h) {
+                    next.push(s);
+                    if next.len() >= cap {
+                        capped = true;
+                        break 'outer;
+                    }
+                }
+            }
+        }
+        levels.push(next.clone());
+        cur = next;
+    }
+    Bfs { levels, transitions, capped }
+}
+
+pub fn explore_c01(rep: &mut Report, thorough: bool) {
+    use crate::c01::{check_state, Acc};
+    let g = Gen::standard(true);
+    let (max_size, cap) = if thorough { (4, 400_000) } else { (3, 60_000) };
+    let t0 = std::time::Instant::now();
+    let b = bfs(&g, max_size, cap);
+    eprintln!("bfs: {:?} levels={:?}", t0.elapsed(), b.levels.iter().map(|l| l.len()).collect::<Vec<_>>());
+    let docs = docs_quick();
+    let doc_json: Vec<String> = docs.iter().map(|d| d.json()).collect();
+    let files: Vec<(File, String)> = b.levels.iter().flatten().map(|f| (f.clone(), print_file(f))).collect();
+    let n = files.len() * docs.len();
+    let deadline = crate::par::deadline_secs(if thorough { 3000 } else { 40 });
+    let res = crate::par::run(
+        n,
+        rep.seed as u64,
+        deadline,
+        Acc::new,
+        |k, acc| {
+            // level-major order: smaller programs first
+            let (ci, di) = (k / docs.len(), k % docs.len());
+            let (f, t) = &files[ci];
+            check_state(f, t, &docs[di], &doc_json[di], "composite", acc);
+        },
+        Acc::merge,
+    );
+    rep.states += res.done as u64;
+    rep.transitions += b.transitions + res.done as u64;
+    rep.distinct_nontrivial += files.len() as u64;
+    if b.capped {
+        rep.caps_hit.push(format!("composite BFS level cap {} hit at size {}", cap, max_size));
+    }
+    if res.capped {
+        rep.caps_hit.push(format!("wall-clock cap: {} of {} composite states explored", res.done, n));
+    }
+    rep.extra.insert(
+        "composite_programs_by_size".into(),
+        serde_json::json!(b.levels.iter().map(|l| l.len()).collect::<Vec<_>>()),
+    );
+    rep.extra.insert("composite_bound_completed".into(), serde_json::json!(if b.capped || res.capped { max_size - 1 } else { max_size }));
+    if let Some((_, t)) = files.last() {
+        rep.samples.push(serde_json::json!({"rules": t, "data": doc_json[doc_json.len() - 1]}));
+    }
+    if files.len() > 2 {
+        rep.samples.push(serde_json::json!({"rules": files[files.len() / 2].1, "data": doc_json[1]}));
+    }
+    res.acc.into_report(rep);
+}
